@@ -22,6 +22,7 @@ overflow, stack, memory, time) are only covered by the outcome search of checks/
 -/
 import Circomspect.Lemmas.DesugarLemmas
 import Circomspect.Props.C12
+import Circomspect.Lemmas.SsaWalkLemmas
 
 namespace Circomspect.C01
 open Circomspect Desugar
@@ -93,5 +94,20 @@ theorem C01_cfg_indices (body : CfgLift.Stmt) (bs : List CfgLift.Block) (ps : Li
   intro l t f hl
   have := C12.C12_branch_targets body bs ps h i b hb l t f hl
   exact ⟨this.1.2, fun j hj => (this.2 j hj).2⟩
+
+/-- `ssa_impl.rs`, the `assert!(var.version().is_none())` sites of `insert_ssa_variables` / `visit_expression`: a statement is
+    converted when its block is visited, and the walk over the dominator tree visits the blocks of pairwise disjoint subtrees —
+    every definition site is logged once, and only for blocks of the subtree being walked -/
+theorem C01_ssa_sites_once (c : SsaBuild.PCfg) (P : SsaBuild.Phis) (idom : Nat → Nat) (hP : ∀ i, (P i).Nodup)
+    (hlt : ∀ j, 0 < j → j < c.blocks.length → idom j < j) (fuel i : Nat) (m : Ssa.VMap) (st st' : SsaWalk.St)
+    (h : SsaWalk.walk c P idom fuel i m st = .ok st') :
+    ∃ ext, st'.log = st.log ++ ext ∧ (SsaWalk.sites ext).Nodup ∧
+      ∀ e, e ∈ ext → ∃ x, SsaWalk.blk e.site = some x ∧ SsaWalk.Anc idom i x :=
+  SsaWalk.walk_sites c P idom hP hlt fuel i m st st' h
+
+/-- `static_single_assignment/mod.rs`: the recursion of `insert_ssa_variables_impl` is at most as deep as there are blocks -/
+theorem C01_ssa_depth (c : SsaBuild.PCfg) (P : SsaBuild.Phis) (idom : Nat → Nat)
+    (hlt : ∀ j, 0 < j → j < c.blocks.length → idom j < j) : SsaWalk.run c P idom ≠ .fuel :=
+  SsaWalk.run_nofuel c P idom hlt
 
 end Circomspect.C01
